@@ -105,6 +105,18 @@ def run_witness(binpath, w):
                     if n > 2:
                         i = rnd.randrange(0, n - 1)
                         jobs.append((fp, "delete char %d" % i, txt[:i] + txt[i + 1:]))
+                # non-ASCII injections: a multi-byte character at random offsets and right after
+                # comment / string / token starts (where byte-wise slicing would go wrong)
+                uni = ["\u00a0", "\u3000", "\u00e9", "\u2192", "\u2028", "\U0001F600"]
+                anchors = [m.end() for m in re.finditer(r"///?|\"|\(|\{|:|,|=", txt)]
+                if w.get("n_unicode", 0):
+                    for m in list(re.finditer(r"(?m)^\s*///?", txt))[:3]:
+                        for ch in ("\u3000", "\u00e9"):
+                            jobs.append((fp, "insert U+%04X after comment start at %d" % (ord(ch), m.end()), txt[:m.end()] + ch + txt[m.end():]))
+                for _ in range(w.get("n_unicode", 0)):
+                    ch = rnd.choice(uni)
+                    i = rnd.choice(anchors) if anchors and rnd.random() < 0.7 else rnd.randrange(0, n + 1)
+                    jobs.append((fp, "insert U+%04X at %d" % (ord(ch), i), txt[:i] + ch + txt[i:]))
             for extra in w.get("input", []):
                 jobs.append(("<listed>", "listed", extra))
 
@@ -126,6 +138,90 @@ def run_witness(binpath, w):
                 bad_items = [r for r in ex.map(one, jobs) if r]
             return {"cmd": "check <%d generated inputs>" % len(jobs), "exit": 0, "stdout": "", "stderr": "",
                     "reproduced": bool(bad_items), "why": "; ".join(bad_items[:5])[:1500], "n_inputs": len(jobs)}
+        elif kind == "interrupt-session":
+            # C08: each program sends a signal to its own interpreter from inside shell::run
+            # (`kill -SIG $PPID`): SIG=INT is a Ctrl-C landing at a known evaluation step, SIG=0 is a
+            # no-op.  After each interrupt a `:resume` follows.  Output and first completed result of
+            # the interrupted+resumed session must equal those of the plain session.
+            def session(prog, sig):
+                f = os.path.join(tmpdir, "s_%s.jsonl" % sig)
+                with open(f, "w", encoding="utf-8") as fh:
+                    if prog.get("defs"):
+                        fh.write(json.dumps({"method": "run", "input": prog["defs"].replace("SIG", sig)}) + "\n")
+                    fh.write(json.dumps({"method": "run", "input": prog["body"].replace("SIG", sig)}) + "\n")
+                    for _ in range(prog.get("resumes", 3)):
+                        fh.write(json.dumps({"method": "run", "input": ":resume"}) + "\n")
+                p = subprocess.run([binpath, "reftest-json-session", f], capture_output=True, text=True, timeout=w.get("timeout", 60), cwd=tmpdir)
+                if p.returncode == 101 or "panicked at" in p.stderr:
+                    return ("PANIC", p.stderr[-200:])
+                dec = json.JSONDecoder()
+                text, pos, printed, result = p.stdout, 0, "", None
+                while True:
+                    while pos < len(text) and text[pos].isspace():
+                        pos += 1
+                    if pos >= len(text):
+                        break
+                    try:
+                        obj, pos = dec.raw_decode(text, pos)
+                    except Exception:
+                        break
+                    k = obj.get("kind", {})
+                    if "printed" in k:
+                        printed += k["printed"]["s"]
+                    elif "evaluate" in k and result is None:
+                        v = k["evaluate"]["value"]
+                        if "Ok" in v:
+                            if str(v["Ok"]).startswith("Loaded "):
+                                continue
+                            result = v["Ok"]
+                        elif v["Err"][0]["message"] != "Interrupted":
+                            result = "ERROR: " + v["Err"][0]["message"]
+                return (printed, result)
+            bad_items, failing = [], []
+            for i, prog in enumerate(w["input"]):
+                try:
+                    plain, intr = session(prog, "0"), session(prog, "INT")
+                except subprocess.TimeoutExpired:
+                    bad_items.append("program %d: timeout" % i)
+                    failing.append(prog)
+                    continue
+                if plain != intr:
+                    bad_items.append("program %d (%s): uninterrupted %r, interrupted+resumed %r" % (i, prog.get("what", ""), plain, intr))
+                    failing.append(prog)
+            return {"cmd": "reftest-json-session <%d programs, plain and interrupted>" % len(w["input"]), "exit": 0, "stdout": "", "stderr": "",
+                    "reproduced": bool(bad_items), "why": "; ".join(bad_items[:4])[:1500], "n_inputs": len(w["input"]), "failing_inputs": failing[:4]}
+        elif kind == "check-matrix":
+            # a list of small programs, each with the verdict `garden check` must give
+            # (expect_error: True = at least one error diagnostic, False = none)
+            from concurrent.futures import ThreadPoolExecutor
+            items = w["input"]
+
+            def one(i):
+                it = items[i]
+                f = os.path.join(tmpdir, "m%d.gdn" % i)
+                open(f, "w", encoding="utf-8").write(it["src"])
+                try:
+                    p = subprocess.run([binpath, "check", "--json", f], capture_output=True, text=True, timeout=30, cwd=tmpdir)
+                except subprocess.TimeoutExpired:
+                    return "%s: timeout" % it.get("what", i)
+                if p.returncode == 101 or "panicked at" in p.stderr:
+                    return "%s: check panicked" % it.get("what", i)
+                n = 0
+                for ln in p.stdout.split("\n"):
+                    try:
+                        if json.loads(ln).get("severity") == "error":
+                            n += 1
+                    except Exception:
+                        pass
+                if (n > 0) != bool(it["expect_error"]):
+                    return "%s: check reported %d errors, expected %s" % (it.get("what", i), n, "an error" if it["expect_error"] else "none")
+                return None
+            with ThreadPoolExecutor(max_workers=8) as ex:
+                res = list(ex.map(one, range(len(items))))
+            bad_items = [r for r in res if r]
+            return {"cmd": "check --json <%d programs>" % len(items), "exit": 0, "stdout": "", "stderr": "",
+                    "reproduced": bool(bad_items), "why": "; ".join(bad_items[:6])[:1500], "n_inputs": len(items),
+                    "failing_inputs": [items[i]["src"] for i, r in enumerate(res) if r][:6]}
         elif kind == "fix-corpus":
             # C22 bounded stand-in: run each program, apply `check --fix` until nothing changes,
             # require that the result still parses (no new error diagnostics), prints the same output
@@ -278,7 +374,7 @@ def make_replay(root, prop, f, results, tier):
                 if obs.get("reproduced"):
                     reproduced = True
                     doc["reproduced"] = True
-                    doc["failing_input"] = w["input"]
+                    doc["failing_input"] = obs.get("failing_inputs") or w["input"]
                     doc["replay_cmd"] = "garden " + obs["cmd"]
                     break
     with open(path, "w") as fh:
